@@ -24,6 +24,7 @@ package vm
 //verif:obligation fn=VerifC08Op args=121,122,2,0,9;121,122,3,31,33 loops=1500 secs=3000
 //verif:obligation fn=VerifC08Op args=126,138,0,0,3;126,138,1,0,3;126,138,3,0,3 loops=1500 secs=3000
 //verif:obligation fn=VerifC08Op args=126,138,2,0,3 loops=1500 secs=3000 validate=16
+//verif:obligation fn=VerifC08Op args=128,129,2,8,8;127,127,3,8,8 loops=1500 secs=3000
 //verif:obligation fn=VerifC08Op args=139,146,0,0,4;139,146,1,0,4 loops=1500 secs=3000
 //verif:obligation fn=VerifC08Op args=147,148,1,0,4 loops=1500 secs=3000
 //verif:obligation fn=VerifC08Op args=147,148,2,0,4 loops=1500 secs=3000 validate=16
